@@ -158,6 +158,25 @@ static void run_handshake(int kind, long long rounds) {
 	printf("{\"ev\":\"phase-done\",\"name\":\"trylock-handshake\"}\n"); fflush(stdout);
 }
 
+/* long hold: the holder keeps the lock for hold_ms while W waiters sit inside lock(); nobody may get in early */
+static Lk lh_lk; static volatile int lh_inside, lh_early, lh_release;
+static void *lh_waiter(void *a) { (void)a; lk_lock(&lh_lk); if (!__atomic_load_n(&lh_release, __ATOMIC_SEQ_CST)) __atomic_add_fetch(&lh_early, 1, __ATOMIC_SEQ_CST); __atomic_add_fetch(&lh_inside, 1, __ATOMIC_SEQ_CST); __atomic_add_fetch(&progress, 1, __ATOMIC_RELAXED); lk_unlock(&lh_lk); return NULL; }
+static long long st_long_holds;
+static void run_long_hold(int kind, int W, int hold_ms) {
+	pthread_t th[8]; int i, t;
+	cur_kind = kind; scen = "long-hold"; lh_inside = lh_early = lh_release = 0;
+	if (!lk_new(&lh_lk, kind)) VH_DIE("lock new");
+	lk_lock(&lh_lk);
+	for (i = 0; i < W; i++) pthread_create(&th[i], NULL, lh_waiter, NULL);
+	for (t = 0; t < hold_ms / 10; t++) { usleep(10000); __atomic_add_fetch(&progress, 1, __ATOMIC_RELAXED); }
+	if (__atomic_load_n(&lh_inside, __ATOMIC_SEQ_CST)) viol("two-holders", "%d waiter(s) entered the critical section while the lock had been held continuously for %d ms by another thread", lh_inside, hold_ms);
+	__atomic_store_n(&lh_release, 1, __ATOMIC_SEQ_CST);
+	lk_unlock(&lh_lk);
+	for (i = 0; i < W; i++) pthread_join(th[i], NULL);
+	if (lh_early) viol("two-holders", "%d lock() calls returned before the holder released (hold %d ms, %d waiters)", lh_early, hold_ms, W);
+	lk_free(&lh_lk); st_long_holds++;
+}
+
 static void run_single(int kind, long long n) {
 	Lk l; long long i;
 	cur_kind = kind; scen = "single-thread";
@@ -183,6 +202,7 @@ int main(int argc, char **argv) {
 		char tmp[128], *tok, *sv; if (only >= 0 && kind != only) continue;
 		run_single(kind, 20000);
 		run_handshake(kind, hs);
+		{ int lh = (int)vh_argi(argc, argv, "--long-hold-ms", 0); if (lh) { run_long_hold(kind, 1, lh); if (lh >= 1000) run_long_hold(kind, 3, lh * 3); } }
 		snprintf(tmp, sizeof tmp, "%s", kind == 1 ? stl : tl); if (kind == 1) N = SN;
 		for (tok = strtok_r(tmp, ",", &sv), ti = 0; tok; tok = strtok_r(NULL, ",", &sv), ti++) {
 			int T = atoi(tok); if (T < 1 || T > MAXT) continue;
@@ -192,7 +212,7 @@ int main(int argc, char **argv) {
 	}
 	p_libsys_shutdown();
 	printf("{\"ev\":\"stats\",\"model\":\"%s\",\"acquisitions\":%lld,\"trylock_true\":%lld,\"trylock_false\":%lld,\"phases\":%lld,\"handoff_cells\":%lld,\"handoff_filled\":%lld,\"max_waiting\":%d,"
-	       "\"handshakes\":%lld,\"single_thread_iters\":%lld,\"quiescent_trylocks\":%lld,\"viol\":%d,\"wall\":%.2f}\n",
-	       VH_MODEL, st_acq, st_try_true, st_try_false, st_phases, st_handoff_cells, st_handoff_filled, st_max_spin, st_handshakes, st_single, st_quiescent, vh_nviol, vh_now() - t0);
+	       "\"long_holds\":%lld,\"handshakes\":%lld,\"single_thread_iters\":%lld,\"quiescent_trylocks\":%lld,\"viol\":%d,\"wall\":%.2f}\n",
+	       VH_MODEL, st_acq, st_try_true, st_try_false, st_phases, st_handoff_cells, st_handoff_filled, st_max_spin, st_long_holds, st_handshakes, st_single, st_quiescent, vh_nviol, vh_now() - t0);
 	return 0;
 }
